@@ -14,7 +14,11 @@
 
 package protocol
 
-import "github.com/blinklabs-io/gouroboros/cbor"
+import (
+	"fmt"
+
+	"github.com/blinklabs-io/gouroboros/cbor"
+)
 
 // Diffusion modes
 const (
@@ -69,6 +73,22 @@ func (v VersionDataNtC9to14) Query() bool {
 	return false
 }
 
+// rejectNullFields fails on version data with a CBOR null (or undefined)
+// element: decoding into a struct would silently turn it into the field's zero
+// value, e.g. a null diffusion mode into "initiator and responder"
+func rejectNullFields(cborData []byte) error {
+	var fields []cbor.RawMessage
+	if _, err := cbor.Decode(cborData, &fields); err != nil {
+		return err
+	}
+	for i, field := range fields {
+		if len(field) == 1 && (field[0] == 0xf6 || field[0] == 0xf7) {
+			return fmt.Errorf("version data: field %d is null", i)
+		}
+	}
+	return nil
+}
+
 type VersionDataNtC15andUp struct {
 	cbor.StructAsArray
 	CborNetworkMagic uint32
@@ -77,6 +97,9 @@ type VersionDataNtC15andUp struct {
 
 func NewVersionDataNtC15andUpFromCbor(cborData []byte) (VersionData, error) {
 	var v VersionDataNtC15andUp
+	if err := rejectNullFields(cborData); err != nil {
+		return v, err
+	}
 	_, err := cbor.Decode(cborData, &v)
 	return v, err
 }
@@ -105,6 +128,9 @@ type VersionDataNtN7to10 struct {
 
 func NewVersionDataNtN7to10FromCbor(cborData []byte) (VersionData, error) {
 	var v VersionDataNtN7to10
+	if err := rejectNullFields(cborData); err != nil {
+		return v, err
+	}
 	_, err := cbor.Decode(cborData, &v)
 	return v, err
 }
@@ -135,8 +161,19 @@ type VersionDataNtN11to12 struct {
 
 func NewVersionDataNtN11to12FromCbor(cborData []byte) (VersionData, error) {
 	var v VersionDataNtN11to12
-	_, err := cbor.Decode(cborData, &v)
-	return v, err
+	if err := rejectNullFields(cborData); err != nil {
+		return v, err
+	}
+	if _, err := cbor.Decode(cborData, &v); err != nil {
+		return v, err
+	}
+	if v.CborPeerSharing > PeerSharingModeV11PeerSharingPublic {
+		return v, fmt.Errorf(
+			"version data: peer sharing mode %d out of range",
+			v.CborPeerSharing,
+		)
+	}
+	return v, nil
 }
 
 func (v VersionDataNtN11to12) NetworkMagic() uint32 {
@@ -167,8 +204,19 @@ type VersionDataNtN13andUp struct {
 
 func NewVersionDataNtN13andUpFromCbor(cborData []byte) (VersionData, error) {
 	var v VersionDataNtN13andUp
-	_, err := cbor.Decode(cborData, &v)
-	return v, err
+	if err := rejectNullFields(cborData); err != nil {
+		return v, err
+	}
+	if _, err := cbor.Decode(cborData, &v); err != nil {
+		return v, err
+	}
+	if v.CborPeerSharing > PeerSharingModePeerSharingPublic {
+		return v, fmt.Errorf(
+			"version data: peer sharing mode %d out of range",
+			v.CborPeerSharing,
+		)
+	}
+	return v, nil
 }
 
 func (v VersionDataNtN13andUp) PeerSharing() bool {
